@@ -24,7 +24,7 @@ def owned(kind):
 def case_text(c):
     k = c['kind']
     if k in ('off', 'dec'):
-        s = 'Region(add=%s%s%s)' % (c['add'], ' sub=%s' % c['sub'] if c['sub'] else '', ' island=%s' % c['isl'] if c.get('isl') else '')
+        s = 'Region(add=%s%s%s)' % (c['add'], ' sub=%s' % c['sub'] if c['sub'] else '', (' island=%s' % c['isl'] if c.get('isl') else '') + (' hole2=%s' % c['sub2'] if c.get('sub2') else ''))
         return ('Offset of ' if k == 'off' else 'Decompose of ') + s.replace(' ', '')
     if k == 'sharp':
         return 'Offset of polygon[' + ' '.join('%g,%g' % (v[0] / 2.0, v[1] / 2.0) for v in c['c']) + ']'
@@ -222,20 +222,30 @@ def main(tier):
     def one(job):
         time.sleep(0.3 * plan.index(job))      # distinct TLC metadirs
         return gen(chk, job[1], fams, workers=job[2])
-    with ThreadPoolExecutor(max_workers=3) as ex:
-        B = dict(zip([j[0] for j in plan], ex.map(one, plan)))
-    reuse = os.environ.get('C12_SAVE_CASES')
+    # (mutation campaigns: C12_SAVE_CASES=<dir> keeps the TLC output, C12_REUSE_CASES=<dir> replays it - the cases
+    # do not depend on /repo; C12_ONLY=off,sharp,misc restricts the driver runs)
+    reuse = os.environ.get('C12_REUSE_CASES')
     if reuse:
+        B = {j[0]: [l.strip() for l in open('%s/%s.ndjson' % (reuse, j[0])) if l.strip()] for j in plan}
+        chk.coverage['states'] = chk.coverage['transitions'] = 0
+    else:
+        with ThreadPoolExecutor(max_workers=3) as ex:
+            B = dict(zip([j[0] for j in plan], ex.map(one, plan)))
+    if os.environ.get('C12_SAVE_CASES'):
         for k, v in B.items():
-            vf.write_ndjson('%s/%s.ndjson' % (reuse, k), v)
+            vf.write_ndjson('%s/%s.ndjson' % (os.environ['C12_SAVE_CASES'], k), v)
+    only = set(os.environ.get('C12_ONLY', 'off,sharp,misc').split(','))
 
     # heavy cases (Offset: 40 offsets each) first, spread evenly over the chunks
     reg = B['reg']
     off = [c for c in reg if json.loads(c)["kind"] == "off"]
     rest = [c for c in reg if json.loads(c)['kind'] != 'off']
-    run_cases(chk, tally, off, 'off', jobs=14, per_job=30)
-    run_cases(chk, tally, B['sharp'], 'sharp', jobs=6, per_job=1)
-    run_cases(chk, tally, rest + B['misc'], 'misc', jobs=12, per_job=300)
+    if 'off' in only:
+        run_cases(chk, tally, off, 'off', jobs=14, per_job=30)
+    if 'sharp' in only:
+        run_cases(chk, tally, B['sharp'], 'sharp', jobs=6, per_job=1)
+    if 'misc' in only:
+        run_cases(chk, tally, rest + B['misc'], 'misc', jobs=12, per_job=300)
 
     def sample(cases, kind, n=1):
         xs = [json.loads(c) for c in cases if json.loads(c)['kind'] == kind]
@@ -272,7 +282,7 @@ def main(tier):
                 'corners x {Miter limit 2/3/5/10, Round, Square, Bevel} x delta. Hull: every set of <= 4 [thorough <= 6] points and every set '
                 'of >= 14 points of the 4x4 grid, each in 4 spellings (order reversed, points repeated, split over two contours). Simplify: '
                 'rectangles with every subset of redundant boundary lattice points, a box with near-collinear vertices displaced by '
-                '-1..1, staircases; each x tolerances 1/2, 1, 3/2, 2 [..3], each as one ring, two rings and as a hole. evaluations = '
+                '-2..1, staircases; each x tolerances 1/2, 1, 3/2, 2 [..3], each as one ring, two rings and as a hole. evaluations = '
                 'API calls judged; non-trivial = non-empty region / more than one component or a hole / non-degenerate hull / '
                 'Simplify must remove a vertex',
         'samples': samples})
